@@ -21,7 +21,8 @@ RULE = ('the real Bus and 2-4 real DBusClientConnections (real handshake, Hello,
         'crossed between concurrent calls. Non-trivial = >=2 calls in flight, or an introspected proxy, or a '
         'container-typed argument; distinct = distinct case JSON. In every third scenario the bus has a history: somebody connected '
         'before the participants and left, a bystander connected after (all unique names must differ). A quarter of the exported '
-        'objects provide IDBusObject only through a registered adapter; every third method is written as async def.')
+        'objects provide IDBusObject only through a registered adapter; every third method is written as async def; '
+        'explicit declarations are sometimes handed over in a list the caller overwrites afterwards.')
 ASSUMPTIONS = ['links are FIFO byte streams; the bus offers ANONYMOUS only in this harness (keeps the cookie mechanism away '
                'from the real home directory)',
                'set-up traffic (handshake, Hello, RequestName, introspection) is delivered FIFO: only the calls are scheduled']
@@ -173,7 +174,12 @@ def _proxy(net, conn, iface, mode, target):
     from txdbus import interface as I
     res = []
     svc = SVC + str(target)
-    if mode == 'explicit':
+    scratch = None
+    if mode == 'explicit' and target % 2 == 1:
+        # the declarations are handed over in a list the application goes on using for other things afterwards
+        scratch = [iface]
+        d = conn.getRemoteObject(svc, '/calc', scratch)
+    elif mode == 'explicit':
         d = conn.getRemoteObject(svc, '/calc', iface)
     elif mode == 'known':
         d = conn.getRemoteObject(svc, '/calc', IFACE)      # the definition declared last is the known one
@@ -186,6 +192,9 @@ def _proxy(net, conn, iface, mode, target):
     d.addBoth(res.append)
     if not net.run_fifo() or len(res) != 1 or not hasattr(res[0], 'callRemote'):
         raise N.RigFailure('getRemoteObject(%s) failed: %r' % (mode, res))
+    if scratch is not None:
+        scratch[0] = I.DBusInterface('org.verif.SomethingElse', I.Method('Other', '', ''), noRegister=True)
+        scratch.append(scratch[0])
     return res[0]
 
 
